@@ -648,11 +648,21 @@ fn run_case1(case: &Value, out: &mut dyn Write, forced: Option<(i32, i32, f64)>)
                         Ok(Err(e)) => json!({"ok": false, "err": err_kind(&e)}),
                         Err(_) => json!({"ok": false, "err": "Panic"}),
                     };
+                    // keys of misc after cte::incorpora_demanda_renovable_acs_nrb
+                    let misc: Vec<String> = match catch_unwind(AssertUnwindSafe(|| cte::incorpora_demanda_renovable_acs_nrb(ep.clone()))) {
+                        Ok(e2) => {
+                            let mut k: Vec<String> = e2.misc.as_ref().map(|m| m.keys().cloned().collect()).unwrap_or_default();
+                            k.sort();
+                            k
+                        }
+                        Err(_) => vec!["PANIC".to_string()],
+                    };
+                    let tagged = ep.components.data.iter().any(|c| c.comment().contains("CTEEPBD_"));
                     let mut tk: Vec<&String> = f.tkeys.iter().filter(|k| !k.ends_with(".f_match")).collect();
                     tk.sort();
                     let mut fk: Vec<&String> = f.tkeys.iter().filter(|k| k.ends_with(".f_match")).collect();
                     fk.sort();
-                    ev["out"] = json!({"ok": true, "crs": crs, "srvs": srvs, "srcs": srcs, "acs": acs,
+                    ev["out"] = json!({"ok": true, "crs": crs, "srvs": srvs, "srcs": srcs, "acs": acs, "misc": misc, "tagged": tagged,
                                        "balkeys": balkeys, "m2keys": m2keys, "tkeys": tk, "fkeys": fk, "flat": f.m});
                     if case.get("render").and_then(|x| x.as_bool()).unwrap_or(false) {
                         ev["doc"] = render_docs(&ep, p, pm);
